@@ -16,10 +16,12 @@ package main
 import (
 	"context"
 	"fmt"
+	"os"
 	"runtime"
 	"sort"
 	"strings"
 	"sync"
+	"sync/atomic"
 	"time"
 
 	"github.com/dapr/kit/cron"
@@ -74,8 +76,9 @@ type op struct {
 }
 
 type c05Input struct {
-	T0  int64 `json:"t0"`
-	Ops []op  `json:"ops"`
+	T0    int64 `json:"t0"`
+	Procs int   `json:"procs,omitempty"` // 1: the script runs with GOMAXPROCS(1)
+	Ops   []op  `json:"ops"`
 }
 
 // explicit-instants schedule
@@ -148,6 +151,9 @@ type runner struct {
 	actsDone     int
 	acts         []actDone
 	settleLen    int
+	exp0         int64
+	heldNow      bool
+	progress     atomic.Int64
 	batchEvents  int // events in the batch of log records collected last
 	remLogged    map[int64]int
 	remIssued    map[int64]int
@@ -169,6 +175,7 @@ type runner struct {
 func newRunner(t0 int64) *runner {
 	r := &runner{byID: map[int64]*token{}, remLogged: map[int64]int{}, remIssued: map[int64]int{},
 		addLogged: map[int64]bool{}}
+	r.exp0 = expiries.Load()
 	r.clk = newVclock(t0)
 	r.log = &glog{clk: r.clk}
 	r.clk.log = r.log
@@ -184,6 +191,9 @@ func pause(i int) {
 	}
 }
 
+// expiries counts liveness deadlines that passed (something that must happen did not).
+var expiries atomic.Int64
+
 // waitFor polls cond until it holds or the liveness deadline passes.
 func waitFor(cond func() bool, d time.Duration) bool {
 	dl := time.Now().Add(d)
@@ -192,7 +202,15 @@ func waitFor(cond func() bool, d time.Duration) bool {
 			return true
 		}
 		if time.Now().After(dl) {
-			return cond()
+			ok := cond()
+			if !ok && d >= liveWait {
+				expiries.Add(1)
+				if os.Getenv("C05_DEBUG") != "" {
+					buf := make([]byte, 4096)
+					fmt.Fprintf(os.Stderr, "liveness expiry:\n%s\n", buf[:runtime.Stack(buf, false)])
+				}
+			}
+			return ok
 		}
 		pause(i)
 	}
@@ -572,7 +590,9 @@ func (r *runner) waitJobs() {
 	waitFor(func() bool {
 		r.jmu.Lock()
 		defer r.jmu.Unlock()
-		if len(r.jstarts) < runs || r.actsDone < r.actsStarted {
+		// (while the scheduler is held, a call made from inside a job cannot complete: do not
+		// wait for it)
+		if len(r.jstarts) < runs || (r.actsDone < r.actsStarted && !r.heldNow) {
 			return false
 		}
 		nb := 0
@@ -622,6 +642,13 @@ func (r *runner) observe(cx context.Context) bool {
 	case <-cx.Done():
 		return true
 	case <-time.After(d):
+		if d >= liveWait {
+			expiries.Add(1)
+			if os.Getenv("C05_DEBUG") != "" {
+				buf := make([]byte, 4096)
+				fmt.Fprintf(os.Stderr, "ctx liveness expiry:\n%s\n", buf[:runtime.Stack(buf, false)])
+			}
+		}
 		return false
 	}
 }
@@ -827,6 +854,10 @@ func (r *runner) stopSeen() bool {
 // ---- operations ----------------------------------------------------------------------------
 
 func (r *runner) do(o op) {
+	if r.hung == "" && expiries.Load()-r.exp0 >= 2 {
+		// the oracle judges what was observed so far; do not spend minutes on this script
+		r.hung = "things that must happen did not (two 10 s deadlines passed)"
+	}
 	if r.hung != "" || r.spinning {
 		return
 	}
@@ -1082,7 +1113,9 @@ func (r *runner) race(o op) {
 			r.afterEvent()
 			return
 		}
+		r.heldNow = true
 		r.collect() // the wake-up at o.To, with its job starts
+		r.heldNow = false
 		_, dl := r.clk.GateParked()
 		o.To = dl + o.Extra
 		held = true
@@ -1120,6 +1153,7 @@ func (r *runner) race(o op) {
 		}
 		r.running = true
 		held = true
+	case "nosettle":
 	default:
 		if a.Op == "entries" {
 			return
@@ -1127,7 +1161,7 @@ func (r *runner) race(o op) {
 	}
 	due := 1
 	if o.Mode == "gated" || !held {
-		due = r.clk.Advance(o.To, o.Mode != "gated")
+		due = r.clk.Advance(o.To, o.Mode != "gated" && o.Mode != "nosettle")
 	}
 	w0, _ := r.log.counts()
 	p0 := r.log.len()
@@ -1189,6 +1223,11 @@ func (r *runner) race(o op) {
 		if !r.call("race:"+a.Op, func() { <-done }) {
 			return
 		}
+	} else if o.Mode == "nosettle" {
+		// the tick has just been delivered (the parked scheduler is committed to the wake-up);
+		// the call is made at once and directly on this goroutine - no helper goroutine, no
+		// yielding in between
+		r.guarded("race:"+a.Op, rawCall)
 	} else if o.Mode == "racy" {
 		gate := make(chan struct{})
 		var wg sync.WaitGroup
